@@ -4,25 +4,30 @@ C04 — personal names are split into first / von / last / jr parts as BibTeX do
 Property theorems only; helper lemmas are in `Lemmas/Names.lean`, the model of the code
 (`Person.__init__`, `Person._parse_string` and its local helpers) in `Model/Names.lean`, the
 rule a reader has to agree with in `Spec/Names.lean` (`Spec.split`, `Spec.vonLast`,
-`Spec.tokenCase`/`Spec.isLow`, and the two hypotheses-vocabulary definitions `Spec.caseTokens`
-— the tokens whose case the rule examines — and `Spec.caseKnown` — the token scans within the
-brace-nesting limit, or starts with an upper-case character).  Tokenisation and comma splitting
-are the C12 primitives `splitTex .space` / `splitTex .comma`.
+`Spec.tokenCase`/`Spec.isLow`, the table of BibTeX's built-in foreign characters
+`Spec.builtinCase`, and `Spec.caseTokens` — the tokens whose case the rule examines).
+Tokenisation and comma splitting are the C12 primitives `splitTex .space` / `splitTex .comma`.
+
+The model follows the code after the proposed repairs C04-1 (`is_von_name` no longer lets
+`too many nested braces` escape: an over-nested token that does not start with a cased character
+has no case) and C04-2 (`special_char_islower` knows the case of BibTeX's thirteen built-in
+foreign characters).  With them model and rule agree on EVERY string; none of the theorems below
+has a "scans within the nesting limit" hypothesis any more.
 
 Character classes: "letter", "upper case", "lower case" are `isAlphaN` / `isUpperN` / `isLowerN`
 (`Model/Names.lean`): Python's `str.isalpha` / `isupper` / `islower` on one character, as
 code-point ranges regenerated from the running interpreter (`Gen/Unicode.lean`).  Model and
 rule use the same classes; `C04_char_classes` records what the rule relies on about them.
 
-The concrete names used by the `_nonvacuous` / `_neg` witnesses (`nameVP`, `nameVB`,
-`tokDeepLower`, `nameDeepLower`, `nameDeep`, and the non-ASCII `nameMao`, `nameBenGurion`,
-`nameBeneden`, `nameAkahi`, `nameCircled`, `nameMixed`) are defined at the end of
-`Lemmas/Names.lean`.
+The concrete names used by the `_nonvacuous` witnesses (`nameVP`, `nameVB`, `tokDeepLower`,
+`nameDeepLower`, `nameDeep`, and the non-ASCII `nameMao`, `nameBenGurion`, `nameBeneden`,
+`nameAkahi`, `nameCircled`, `nameMixed`) are defined at the end of `Lemmas/Names.lean`.
 
 `parseName` is `_parse_string` on the stripped argument (`mkPerson` strips and calls it only
 for a non-empty result, as `Person.__init__` does).
 -/
 import PybtexModel.Lemmas.Names
+import PybtexModel.Props.C12
 
 namespace Pybtex.Props
 open Pybtex Spec Names
@@ -34,9 +39,9 @@ from, a kernel-evaluated check of the regenerated tables):
 no character is both upper and lower case; below U+0080 the classes are the ASCII ones; white
 space, braces, backslash, comma, tie, hyphen and digits are in none of the classes; a first
 character that is a letter or cased is an ordinary brace-level-0 character (the first token of
-the scan); and the first-character clause of `Spec.tokenCase` changes nothing unless the token
-starts with a cased character that is not a letter — otherwise the token's case is the one of
-its first brace-level-0 letter or special character. -/
+the scan); and the first-character clause of `Spec.tokenCase` changes nothing for a token that
+scans unless it starts with a cased character that is not a letter — otherwise the token's case
+is the one of its first brace-level-0 letter or special character. -/
 theorem C04_char_classes :
     (∀ c, isUpperN c = true → isLowerN c = false) ∧
     (∀ c : Char, c.toNat < 128 →
@@ -46,7 +51,7 @@ theorem C04_char_classes :
     (∀ c r, (isAlphaN c = true ∨ isUpperN c = true ∨ isLowerN c = true) →
       scan (c :: r) = (scan r).map (([c], 0) :: ·)) ∧
     (∀ tok, (∀ c r, tok = c :: r → (isUpperN c = true ∨ isLowerN c = true) → isAlphaN c = true) →
-      Spec.tokenCase tok = (scan tok).map Spec.tokCaseOf) := by
+      ∀ toks, scan tok = some toks → Spec.tokenCase tok = Spec.tokCaseOf toks) := by
   refine ⟨fun _ => upper_lower_disjoint, fun _ => ascii_classes, ?_, fun _ r h => scan_cons_classed r h,
     tokenCase_eq_scan⟩
   intro c h
@@ -67,31 +72,32 @@ theorem C04_char_classes_nonvacuous :
     (isAlphaN 'Ⓐ' = false ∧ isUpperN 'Ⓐ' = true) ∧ (isAlphaN 'ⓐ' = false ∧ isLowerN 'ⓐ' = true) ∧
     (isAlphaN (Char.ofNat 0x301) = false ∧ isUpperN (Char.ofNat 0x301) = false ∧
       isLowerN (Char.ofNat 0x301) = false) ∧
-    Spec.tokenCase "ⓐB".toList = some .lower ∧ (scan "ⓐB".toList).map Spec.tokCaseOf = some .upper := by
-  decide +kernel
+    Spec.tokenCase "ⓐB".toList = .lower ∧ (scan "ⓐB".toList).map Spec.tokCaseOf = some .upper := by
+  -- (the three `∀ c ∈ …` parts are evaluated as `List.all`: the instance `decide` finds for a bounded
+  -- quantifier recurses too deeply in the kernel on the far end of the letter table)
+  have h1 : ("毛בן김ʻǅ".toList.all fun c => isAlphaN c && !isUpperN c && !isLowerN c) = true := by decide +kernel
+  have h2 : ("ÉЖΩ".toList.all fun c => isAlphaN c && isUpperN c && !isLowerN c) = true := by decide +kernel
+  have h3 : ("éжω".toList.all fun c => isAlphaN c && !isUpperN c && isLowerN c) = true := by decide +kernel
+  refine ⟨fun c hc => ?_, fun c hc => ?_, fun c hc => ?_, by decide +kernel, by decide +kernel,
+    by decide +kernel, by decide +kernel, by decide +kernel⟩
+  · simpa [and_assoc] using List.all_eq_true.mp h1 c hc
+  · simpa [and_assoc] using List.all_eq_true.mp h2 c hc
+  · simpa [and_assoc] using List.all_eq_true.mp h3 c hc
 
 /-! ### 1. the model is the BibTeX rule -/
 
-/-- `_parse_string` computes exactly the BibTeX split, for every non-empty string all of
-whose case-deciding tokens have a decidable case (they scan within the nesting limit or start
-with an upper-case character; `is_von_name` does not even look further in the latter case). -/
-theorem C04_matches_spec (name : Str) (hne : name ≠ [])
-    (hk : ∀ t ∈ Spec.caseTokens name, Spec.caseKnown t = true) :
-    parseName name = .ok (Spec.split name) := by
-  cases h : parseName name with
-  | error e =>
-    obtain ⟨_, t, ht, _, hc⟩ := parseName_error hne h
-    rw [hk t ht] at hc; cases hc
-  | ok r =>
-    rw [split_eq, parseName_ok h (fun t ht b hb => isVonName_ok hb (hk t ht))]
+/-- `_parse_string` computes exactly the BibTeX split, for EVERY non-empty string. -/
+theorem C04_matches_spec (name : Str) (hne : name ≠ []) :
+    parseName name = .ok (Spec.split name) :=
+  parseName_eq_split hne
 
 theorem C04_matches_spec_nonvacuous :
-    (nameVP ≠ [] ∧ ∀ t ∈ Spec.caseTokens nameVP, Spec.caseKnown t = true) ∧
+    nameVP ≠ [] ∧
     parseName nameVP = .ok
       ({ first := ["Charles".toList], middle := ["Louis".toList, "Xavier".toList, "Joseph".toList],
          prelast := ["de".toList, "la".toList],
          last := ["Vall{\\'e}e".toList, "Poussin".toList], lineage := [] }, false) ∧
-    (nameVB ≠ [] ∧ ∀ t ∈ Spec.caseTokens nameVB, Spec.caseKnown t = true) ∧
+    nameVB ≠ [] ∧
     parseName nameVB = .ok
       ({ first := ["Ludwig".toList], middle := [], prelast := ["von".toList],
          last := ["Beethoven".toList], lineage := ["Jr".toList] }, false) := by
@@ -102,8 +108,7 @@ a von part; non-ASCII capitals / small letters (É, Ж, ван, ω) behave like 
 character that is not a letter (Ⓐ, ⓐ) decides the case as first character only; the titlecase
 letter ǅ is a letter without case. -/
 theorem C04_matches_spec_nonvacuous_unicode :
-    (∀ n ∈ [nameMao, nameBenGurion, nameBeneden, nameAkahi, nameCircled, nameMixed],
-      n ≠ [] ∧ ∀ t ∈ Spec.caseTokens n, Spec.caseKnown t = true) ∧
+    (∀ n ∈ [nameMao, nameBenGurion, nameBeneden, nameAkahi, nameCircled, nameMixed], n ≠ []) ∧
     parseName nameMao = .ok ({ first := ["毛".toList], last := ["泽东".toList] }, false) ∧
     parseName nameBenGurion = .ok
       ({ first := ["\u05d3\u05d5\u05d3".toList], middle := ["\u05d1\u05df".toList],
@@ -119,17 +124,21 @@ theorem C04_matches_spec_nonvacuous_unicode :
          last := ["ǅx".toList, "Ωmega".toList] }, false) := by
   decide +kernel
 
-/-- The same with the plain hypothesis "every case-deciding token scans". -/
-theorem C04_matches_spec_of_scan (name : Str) (hne : name ≠ [])
-    (hs : ∀ t ∈ Spec.caseTokens name, (scan t).isSome = true) :
-    parseName name = .ok (Spec.split name) :=
-  C04_matches_spec name hne (fun t ht => caseKnown_of_scan (hs t ht))
-
-theorem C04_matches_spec_of_scan_nonvacuous :
-    nameVP ≠ [] ∧ ∀ t ∈ Spec.caseTokens nameVP, (scan t).isSome = true := by decide +kernel
+/-- Names written the way real `.bib` files write them: a line break (with indentation) inside
+the name, a tab, CR LF, a no-break space, U+2028 and U+001F are token separators like the blank,
+also mixed with ties and control spaces in one name. -/
+theorem C04_matches_spec_nonvacuous_whitespace :
+    parseName "Ludwig\n    van\tBeethoven".toList = .ok
+      ({ first := ["Ludwig".toList], prelast := ["van".toList], last := ["Beethoven".toList] }, false) ∧
+    parseName "von\r\nBeethoven,\n Jr,\u00a0Ludwig\u2028X.".toList = .ok
+      ({ first := ["Ludwig".toList], middle := ["X.".toList], prelast := ["von".toList],
+         last := ["Beethoven".toList], lineage := ["Jr".toList] }, false) ∧
+    parseName "A~\n\\ b\u001f\t~C".toList = .ok
+      ({ first := ["A".toList], prelast := ["b".toList], last := ["C".toList] }, false) := by
+  decide +kernel
 
 /-- Whenever `_parse_string` succeeds, its result is the rule's split computed with
-"`is_von_name` answers yes" as the lower-case test — no hypothesis on the string. -/
+"`is_von_name` answers yes" as the lower-case test (the tie to `is_von_name` itself). -/
 theorem C04_matches_rule_any (name : Str) (r : Person × Bool) (h : parseName name = .ok r) :
     r = splitWith isVonB name :=
   parseName_ok h (fun t _ b hb => by simp [isVonB, hb])
@@ -137,28 +146,16 @@ theorem C04_matches_rule_any (name : Str) (r : Person × Bool) (h : parseName na
 theorem C04_matches_rule_any_nonvacuous : ∃ r, parseName nameVB = .ok r :=
   ⟨_, C04_matches_spec_nonvacuous.2.2.2⟩
 
-/-- The hypothesis of `C04_matches_spec` cannot be dropped for tokens that start with a
-lower-case letter: `is_von_name` answers "lower-case" from the first character alone, while the
-rule gives no case to a token nested deeper than the limit.  (Success alone does not imply
-agreement with `Spec.split`.) -/
-theorem C04_matches_spec_neg :
-    parseName nameDeepLower = .ok ({ prelast := [tokDeepLower], last := [['B']] }, false) ∧
-    Spec.split nameDeepLower = ({ first := [tokDeepLower], last := [['B']] }, false) ∧
-    (∀ t ∈ Spec.caseTokens nameDeepLower,
-      (match t with | c :: _ => isAlphaN c && isLowerN c | [] => false) = true ∨
-        (scan t).isSome = true) := by
-  decide +kernel
-
-/-- Case of one token: for a non-empty token whose case is decidable `is_von_name` is the
-rule's "the token is lower-case" (a cased first character; else the first brace-level-0 letter,
-or the first letter after the control sequence of a special character that comes first). -/
-theorem C04_case_of_token (t : Str) (hne : t ≠ []) (hk : Spec.caseKnown t = true) :
+/-- Case of one token: on EVERY non-empty token `is_von_name` is the rule's "the token is
+lower-case" (a cased first character; else the first brace-level-0 letter, or the case of the
+special character that comes first). -/
+theorem C04_case_of_token (t : Str) (hne : t ≠ []) :
     isVonName t = .ok (Spec.isLow t) :=
-  isVonName_eq_isLow hne hk
+  isVonName_eq hne
 
 theorem C04_case_of_token_nonvacuous :
     let t := "{\\'e}cole".toList
-    t ≠ [] ∧ Spec.caseKnown t = true ∧ Spec.isLow t = true ∧
+    t ≠ [] ∧ Spec.isLow t = true ∧
     Spec.isLow "{\\'E}cole".toList = false ∧ Spec.isLow "{\\relax von}".toList = true := by
   decide +kernel
 
@@ -167,51 +164,111 @@ theorem C04_case_of_token_nonvacuous :
 (`(毛x`); special characters with non-ASCII letters; ⓐ counts in first position only. -/
 theorem C04_case_of_token_nonvacuous_unicode :
     (∀ t ∈ ["école", "жан", "ωmega", "ⓐB", "{\\'é}cole", "{\\relax ж}", "1é", "\u0301x"].map String.toList,
-      t ≠ [] ∧ Spec.caseKnown t = true ∧ Spec.isLow t = true) ∧
+      t ≠ [] ∧ Spec.isLow t = true) ∧
     (∀ t ∈ ["École", "毛x", "ʻakahi", "ǅx", "(毛x", "1ⓐX", "Ⓐb", "{\\'É}cole", "{\\relax 毛}x", "김"].map String.toList,
-      t ≠ [] ∧ Spec.caseKnown t = true ∧ Spec.isLow t = false) := by
+      t ≠ [] ∧ Spec.isLow t = false) := by
+  decide +kernel
+
+/-- A token whose braces nest deeper than the scanner follows them (more than 100 levels): its
+case is the case of its first character — upper, lower, or none at all — and `is_von_name`
+answers accordingly instead of raising. -/
+theorem C04_overnested_case (t : Str) (hne : t ≠ []) (hs : scan t = none) :
+    Spec.tokenCase t = (match t with | c :: _ => Spec.charCase c | [] => .caseless) ∧
+    isVonName t = .ok (match t with | c :: _ => isLowerN c | [] => false) := by
+  match t, hne with
+  | c :: r, _ =>
+    have key : Spec.tokenCase (c :: r) = Spec.charCase c := by
+      cases hu : isUpperN c with
+      | true => simp [Spec.tokenCase, Spec.charCase, hu]
+      | false =>
+        cases hl : isLowerN c with
+        | true => simp [Spec.tokenCase, Spec.charCase, hu, hl]
+        | false => rw [tokenCase_uncased_first hu hl, hs]; simp [Spec.charCase, hu, hl]
+    refine ⟨key, ?_⟩
+    rw [isVonName_eq (by simp), Spec.isLow, key, charCase_lower]
+
+/-- `a{{…}} B` (the first token starts with a lower-case letter and nests 101 braces) has a von
+part; `{{…}} B` (101 braces, nothing cased in front) parses with a caseless first token. -/
+theorem C04_overnested_case_nonvacuous :
+    tokDeepLower ≠ [] ∧ scan tokDeepLower = none ∧
+    parseName nameDeepLower = .ok ({ prelast := [tokDeepLower], last := [['B']] }, false) ∧
+    Spec.split nameDeepLower = ({ prelast := [tokDeepLower], last := [['B']] }, false) ∧
+    scan (nameDeep.take 202) = none ∧
+    parseName nameDeep = .ok ({ first := [nameDeep.take 202], last := [['B']] }, false) := by
+  decide +kernel
+
+/-- BibTeX's built-in foreign characters: a special character whose control sequence (the letters
+after the backslash, ended by a non-letter or by the end of the special character) is one of
+`\i \j \oe \ae \aa \o \l \ss` is lower case, one of `\OE \AE \AA \O \L` upper case — whatever
+follows the control sequence; `special_char_islower` answers accordingly. -/
+theorem C04_builtin_special_chars (cs rest : Str) (k : Spec.TokCase)
+    (hcs : cs.all isAlphaN = true) (hrest : ∀ c r, rest = c :: r → isAlphaN c = false)
+    (hk : Spec.builtinCase cs = some k) :
+    Spec.specialCase ('\\' :: cs ++ rest) = k ∧
+    specialCharIsLower ('\\' :: cs ++ rest) = decide (k = .lower) := by
+  have htw : (cs ++ rest).takeWhile isAlphaN = cs := takeWhile_append_stop hcs hrest
+  have h1 : Spec.specialCase ('\\' :: cs ++ rest) = k := by
+    simp only [Spec.specialCase, List.cons_append, List.drop_succ_cons, List.drop_zero, htw, hk]
+  exact ⟨h1, by rw [specialCharIsLower_eq, h1]⟩
+
+/-- all thirteen; `{\o}stergaard` is a von token, `{\O}stergaard` is not, `{\O e}` is upper case
+although a small letter follows, `{\oe}` is lower case although no letter follows, `{\oslash x}`
+is not a built-in. -/
+theorem C04_builtin_special_chars_nonvacuous :
+    (∀ cs ∈ ["i", "j", "oe", "ae", "aa", "o", "l", "ss"].map String.toList,
+      cs.all isAlphaN = true ∧ Spec.builtinCase cs = some .lower) ∧
+    (∀ cs ∈ ["OE", "AE", "AA", "O", "L"].map String.toList,
+      cs.all isAlphaN = true ∧ Spec.builtinCase cs = some .upper) ∧
+    Spec.isLow "{\\o}stergaard".toList = true ∧ Spec.isLow "{\\O}stergaard".toList = false ∧
+    Spec.isLow "{\\O e}".toList = false ∧ Spec.isLow "{\\oe}".toList = true ∧
+    Spec.isLow "{\\ss}x".toList = true ∧ Spec.isLow "{\\Oe}x".toList = false ∧
+    Spec.isLow "{\\oslash X}".toList = false ∧
+    parseName "Jens {\\o}stergaard Hansen".toList = .ok
+      ({ first := ["Jens".toList], prelast := ["{\\o}stergaard".toList], last := ["Hansen".toList] }, false) := by
   decide +kernel
 
 /-! ### 2. totality -/
 
-/-- `_parse_string` on a non-empty string never raises `IndexError`/`ValueError`: it returns a
-person, reporting "too many commas" exactly when there are more than three comma parts, or it
-raises `too many nested braces`, and then one of the case-deciding tokens does not scan. -/
+/-- `_parse_string` succeeds on EVERY non-empty string — no `IndexError`, no `ValueError`, no
+`too many nested braces` — and reports "too many commas" exactly when there are more than three
+comma parts. -/
 theorem C04_total (name : Str) (hne : name ≠ []) :
-    (∃ p, parseName name = .ok (p, decide ((splitTex .comma name).length > 3))) ∨
-    (parseName name = .error .tooDeep ∧
-      ∃ t ∈ Spec.caseTokens name, scan t = none ∧ Spec.caseKnown t = false) := by
-  cases h : parseName name with
-  | error e =>
-    obtain ⟨he, ht⟩ := parseName_error hne h
-    subst he
-    exact Or.inr ⟨rfl, ht⟩
-  | ok r =>
-    left
-    have := C04_matches_rule_any name r h
-    refine ⟨r.1, ?_⟩
-    rw [← splitWith_tooMany isVonB name, ← this]
+    ∃ p, parseName name = .ok (p, decide ((splitTex .comma name).length > 3)) := by
+  refine ⟨(Spec.split name).1, ?_⟩
+  rw [parseName_eq_split hne, split_eq, ← splitWith_tooMany isLow name]
 
 theorem C04_total_nonvacuous :
     parseName "a, b, c, d e".toList = .ok
       ({ first := ["c".toList], middle := ["d".toList, "e".toList], prelast := [],
          last := ["a".toList], lineage := ["b".toList] }, true) ∧
     parseName "~".toList = .ok ({}, false) ∧
-    parseName nameDeep = .error .tooDeep := by
-  decide +kernel
+    (∃ p, parseName nameDeep = .ok (p, false)) := by
+  refine ⟨by decide +kernel, by decide +kernel, _, C04_overnested_case_nonvacuous.2.2.2.2.2⟩
 
-/-- `Person(string, first, middle, prelast, last, lineage)` for ANY six strings: a person, or
-`too many nested braces` from a token of the stripped, non-empty `string`. -/
+/-- `Person(string, first, middle, prelast, last, lineage)` succeeds for ANY six strings; "too
+many commas" is reported exactly when the stripped string has more than three comma parts. -/
 theorem C04_total_person (s f m p l j : Str) :
-    (∃ P b, mkPerson s f m p l j = .ok (P, b)) ∨
-    (mkPerson s f m p l j = .error .tooDeep ∧ strip s ≠ [] ∧
-      ∃ t ∈ Spec.caseTokens (strip s), scan t = none ∧ Spec.caseKnown t = false) := by
-  cases h : mkPerson s f m p l j with
-  | ok r => exact Or.inl ⟨r.1, r.2, rfl⟩
-  | error e =>
-    obtain ⟨he, hne, hp⟩ := mkPerson_error h
-    subst he
-    exact Or.inr ⟨rfl, hne, (parseName_error hne hp).2⟩
+    ∃ P, mkPerson s f m p l j =
+      .ok (P, decide (strip s ≠ [] ∧ (splitTex .comma (strip s)).length > 3)) := by
+  unfold mkPerson
+  simp only []
+  by_cases hne : strip s = []
+  · simp [hne]
+  · obtain ⟨p0, hp0⟩ := C04_total (strip s) hne
+    rw [if_pos hne, hp0]
+    simp [hne]
+
+theorem C04_total_person_nonvacuous :
+    mkPerson " a, b, c, d ".toList [] [] [] [] [] = .ok
+      ({ first := ["c".toList], middle := ["d".toList], last := ["a".toList], lineage := ["b".toList] }, true) ∧
+    (∃ P, mkPerson nameDeep nameDeep nameDeep [] [] [] = .ok (P, false)) ∧
+    mkPerson [] [] [] [] [] [] = .ok ({}, false) := by
+  refine ⟨by decide +kernel, ?_, by decide +kernel⟩
+  obtain ⟨P, hP⟩ := C04_total_person nameDeep nameDeep nameDeep [] [] []
+  have hb : decide (strip nameDeep ≠ [] ∧ (splitTex .comma (strip nameDeep)).length > 3) = false := by
+    decide +kernel
+  rw [hb] at hP
+  exact ⟨P, hP⟩
 
 /-- the tokens `_parse_string` works with are never empty; a non-empty string has a comma part -/
 theorem C04_tokens_nonempty (s : Str) :
@@ -267,15 +324,13 @@ three forms): the von/Last boundary is the rule's; no lower-case token is left i
 its final token; von, when present, ends with a lower-case token; Last is not empty unless
 there is no von-Last token at all; a lower-case token before the final one forces a von part. -/
 theorem C04_von_longest (name : Str) (p : Person) (b : Bool)
-    (hk : ∀ t ∈ Spec.caseTokens name, Spec.caseKnown t = true)
     (h : parseName name = .ok (p, b)) :
     (p.prelast, p.last) = Spec.vonLast (p.prelast ++ p.last) ∧
     (∀ t ∈ p.last.dropLast, Spec.isLow t = false) ∧
     (p.prelast ≠ [] → ∃ t, p.prelast.getLast? = some t ∧ Spec.isLow t = true) ∧
     (p.prelast ++ p.last ≠ [] → p.last ≠ []) ∧
     ((∃ t ∈ (p.prelast ++ p.last).dropLast, Spec.isLow t = true) → p.prelast ≠ []) := by
-  have hr : (p, b) = splitWith isLow name :=
-    parseName_ok h (fun t ht b hb => isVonName_ok hb (hk t ht))
+  have hr : (p, b) = splitWith isLow name := parseName_ok_isLow h
   have hv := splitWith_vonLast isLow name
   rw [← hr] at hv
   simp only [] at hv
@@ -284,34 +339,28 @@ theorem C04_von_longest (name : Str) (p : Person) (b : Bool)
   exact ⟨by rw [vonLast_eq]; exact hv, hp.1, hp.2.1, hp.2.2.1, hp.2.2.2.1⟩
 
 theorem C04_von_longest_nonvacuous :
-    (∀ t ∈ Spec.caseTokens nameVP, Spec.caseKnown t = true) ∧
-    (∃ p b, parseName nameVP = .ok (p, b) ∧ p.prelast ≠ [] ∧
-      ∃ t ∈ (p.prelast ++ p.last).dropLast, Spec.isLow t = true) :=
-  ⟨C04_matches_spec_nonvacuous.1.2, _, _, C04_matches_spec_nonvacuous.2.1, by decide +kernel, by decide +kernel⟩
+    ∃ p b, parseName nameVP = .ok (p, b) ∧ p.prelast ≠ [] ∧
+      ∃ t ∈ (p.prelast ++ p.last).dropLast, Spec.isLow t = true :=
+  ⟨_, _, C04_matches_spec_nonvacuous.2.1, by decide +kernel, by decide +kernel⟩
 
 /-- No-comma form ("First von Last"): no token of First is lower-case; von, when present,
 starts with a lower-case token (the first one of the name); a lower-case token before the
 final token forces a von part. -/
 theorem C04_case_rule (name : Str) (p : Person) (b : Bool) (a : Str)
     (hp : splitTex .comma name = [a])
-    (hk : ∀ t ∈ splitTex .space name, Spec.caseKnown t = true)
     (h : parseName name = .ok (p, b)) :
     (∀ t ∈ p.first ++ p.middle, Spec.isLow t = false) ∧
     (p.prelast ≠ [] → ∃ t, p.prelast.head? = some t ∧ Spec.isLow t = true) ∧
     ((∃ t ∈ (splitTex .space name).dropLast, Spec.isLow t = true) → p.prelast ≠ []) := by
-  have hk' : ∀ t ∈ Spec.caseTokens name, Spec.caseKnown t = true := by
-    simpa [Spec.caseTokens, hp] using hk
-  have hr : (p, b) = splitWith isLow name :=
-    parseName_ok h (fun t ht b hb => isVonName_ok hb (hk' t ht))
+  have hr : (p, b) = splitWith isLow name := parseName_ok_isLow h
   have := splitWith_one isLow name a hp
   rw [← hr] at this
   exact this
 
 theorem C04_case_rule_nonvacuous :
     splitTex .comma nameVP = [nameVP] ∧
-    (∀ t ∈ splitTex .space nameVP, Spec.caseKnown t = true) ∧
     (∃ p b, parseName nameVP = .ok (p, b) ∧ p.first ++ p.middle ≠ [] ∧ p.prelast ≠ []) :=
-  ⟨by decide +kernel, by decide +kernel, _, _, C04_matches_spec_nonvacuous.2.1, by decide +kernel, by decide +kernel⟩
+  ⟨by decide +kernel, _, _, C04_matches_spec_nonvacuous.2.1, by decide +kernel, by decide +kernel⟩
 
 /-! ### 5. explicit part arguments -/
 
@@ -411,5 +460,58 @@ theorem C04_braces_atomic_nonvacuous :
       ({ first := ["First".toList], middle := ["{de la}".toList], prelast := [],
          last := ["{von Last}".toList], lineage := ["{Jr, III}".toList] }, false) := by
   decide +kernel
+
+/-- The constructor as a whole, for ANY six arguments: `Person(string, first, middle, prelast,
+last, lineage)` is the rule's split of the stripped string (nothing for a blank string) with the
+tokens of each explicit part appended; "too many commas" as the rule says. -/
+theorem C04_person_matches_spec (s f m p l j : Str) :
+    mkPerson s f m p l j = .ok
+      (let base : Person × Bool := if strip s = [] then ({}, false) else Spec.split (strip s)
+       ({ first := base.1.first ++ splitTex .space f, middle := base.1.middle ++ splitTex .space m,
+          prelast := base.1.prelast ++ splitTex .space p, last := base.1.last ++ splitTex .space l,
+          lineage := base.1.lineage ++ splitTex .space j }, base.2)) := by
+  unfold mkPerson
+  simp only []
+  by_cases hne : strip s = []
+  · simp [hne]
+  · rw [if_pos hne, parseName_eq_split hne, if_neg hne]
+
+theorem C04_person_matches_spec_nonvacuous :
+    mkPerson "  Ludwig\nvan Beethoven ".toList [] "X.".toList [] [] "jr".toList = .ok
+      ({ first := ["Ludwig".toList], middle := ["X.".toList], prelast := ["van".toList],
+         last := ["Beethoven".toList], lineage := ["jr".toList] }, false) ∧
+    mkPerson " \t".toList [] [] "de la".toList "X".toList [] = .ok
+      ({ prelast := ["de".toList, "la".toList], last := ["X".toList] }, false) := by
+  decide +kernel
+
+/-- Braced groups are never split: in a name whose braces are balanced every returned token is
+itself brace-balanced (so no group is cut by a token boundary or by a comma), in all comma forms
+incl. "too many commas"; likewise every token of a balanced explicit part argument.  (From
+`C12_split_braces` — the raw pieces of `split_tex_string` on balanced input are balanced — since
+stripping and joining comma parts by blanks keep the balance.) -/
+theorem C04_groups_never_split :
+    (∀ s : Str, balanced s = true → ∀ t ∈ splitTex .space s, balanced t = true) ∧
+    (∀ (name : Str) (p : Person) (b : Bool), balanced name = true → parseName name = .ok (p, b) →
+      ∀ t ∈ p.first ++ p.middle ++ p.prelast ++ p.last ++ p.lineage, balanced t = true) := by
+  have tok : ∀ (sep : Sep) (s : Str), balanced s = true → ∀ t ∈ splitTex sep s, balanced t = true :=
+    fun sep s hs => splitTex_balanced_of_raw (C12_split_braces sep s hs)
+  refine ⟨tok .space, ?_⟩
+  intro name p b hb h t ht
+  obtain ⟨_, s, hs, hts⟩ := C04_braces_atomic name p b h t ht
+  have hparts := tok .comma name hb
+  refine tok .space s ?_ t hts
+  rcases hs with rfl | hs | rfl
+  · exact hb
+  · exact hparts s (List.mem_of_mem_take hs)
+  · exact balanced_joinWith_blank _ (fun x hx => hparts x (List.mem_of_mem_drop hx))
+
+theorem C04_groups_never_split_nonvacuous :
+    balanced "{von Last}, {Jr, III}, First~{de la}".toList = true ∧
+    (∃ p b, parseName "{von Last}, {Jr, III}, First~{de la}".toList = .ok (p, b)) ∧
+    balanced "a {b, {c d}} e, f, g, h {i, j}".toList = true ∧
+    parseName "a {b, {c d}} e, f, g, h {i, j}".toList = .ok
+      ({ first := ["g".toList], middle := ["h".toList, "{i, j}".toList], prelast := ["a".toList],
+         last := ["{b, {c d}}".toList, "e".toList], lineage := ["f".toList] }, true) := by
+  refine ⟨by decide +kernel, ⟨_, _, C04_braces_atomic_nonvacuous⟩, by decide +kernel, by decide +kernel⟩
 
 end Pybtex.Props
